@@ -1,6 +1,7 @@
 (* props/C19.v - C19: no Monte-Carlo move is larger than the configured maximum step. *)
 From Coq Require Import ZArith NArith List Bool Reals Floats.
 From PV Require Import Num NumR model.Optimiser model.OptSpec proofs.OptStruct proofs.OptLoop proofs.FloatFacts proofs.RealFacts.
+From PV Require Import model.Cli gen.GenCli proofs.CliFacts.
 
 Theorem C19_ratio_le_one :
   forall (NN : Num) (fexp : carrier NN -> carrier NN) (score : N -> list (carrier NN) -> option
@@ -43,4 +44,17 @@ Theorem C19_proposal_differs_in_one :
     nat) (dflt : carrier NN), k <> i -> nth k ps' dflt = nth k (params NN st) dflt).
 Proof. exact OptStruct.C06_proposal_differs_in_one. Qed.
 Print Assumptions C19_proposal_differs_in_one.
+
+
+Theorem C19_cli_stage_max_step :
+  forall (NN : Num) (fpow : carrier NN -> carrier NN -> carrier NN) (i : N) (u : sbuilder NN) (k
+    : nat), k < 3 -> max_step NN (build NN fpow (sb NN (stage_settings NN (gen_stages NN) k i
+    u))) = b_max_step NN (sb NN u).
+Proof. exact cli_stage_max_step. Qed.
+Print Assumptions C19_cli_stage_max_step.
+
+Theorem C19_cli_driver_translated :
+  gen_cli_problem = String.EmptyString.
+Proof. exact cli_translated. Qed.
+Print Assumptions C19_cli_driver_translated.
 
